@@ -91,9 +91,12 @@ Definition witness_unspread : list execdef :=
    DFrag (mkFrag pos0 (mkid (s "U")) (mkid (s "Query")) []
             (SelSet pos0 [fld (s "x"); SSpread pos0 (mkid (s "Missing")) []]))].
 
-(** A fragment that no operation spreads is never validated by [check] (the correspondence run shows the
-    real checker accepts this document); it spreads an undefined fragment and the printer panics, for the
-    fragment's own runtime document and hence for the whole module. *)
+(** The guard [spreads_defined_b] is necessary: the printers are not total.  Here a fragment that no
+    operation spreads spreads an undefined fragment, and the printer panics for the fragment's own runtime
+    document and hence for the whole module.  (Before /repo c67e45e the real [check] accepted this document,
+    which made it a violation of the property; since that commit [check] reports UnknownFragment for it — the
+    correspondence run keeps generating such documents and requires them to be rejected — so the panic is
+    only reachable by calling the printer on a document that was not checked.) *)
 Lemma undefined_spread_panics :
   exists defs f,
     In (DFrag f) defs
